@@ -17,7 +17,16 @@ for d in $SNAP/seeded/*/; do
   cd $SNAP
   VERIF_REPO=/tmp/sv VERIF_EVIDENCE_DIR=/tmp/sv_evidence ./check $prop quick > /tmp/rg_out.txt 2>&1; rc=$?
   rules=$(grep -E "^  rule" /tmp/rg_out.txt | sed 's/^  rule \([^:]*\):.*/\1/' | sort -u | tr '\n' ' ')
-  if [ $rc -ne 0 ]; then echo "SEED $id: detected by $prop [$rules]"; else echo "SEED $id: MISSED by $prop"; fi
+  if [ $rc -ne 0 ]; then echo "SEED $id: detected by $prop [$rules]"; else
+    # not flagged by the property it was written for: does any other check flag it?
+    others=""
+    for c in $ALL; do
+      [ $c = $prop ] && continue
+      VERIF_REPO=/tmp/sv VERIF_EVIDENCE_DIR=/tmp/sv_evidence ./check $c quick > /tmp/rg_out.txt 2>&1
+      if [ $? -ne 0 ]; then others="$others $c[$(grep -E "^  rule" /tmp/rg_out.txt | sed 's/^  rule \([^:]*\):.*/\1/' | sort -u | tr '\n' ' ')]"; fi
+    done
+    if [ -n "$others" ]; then echo "SEED $id: not flagged by $prop; detected by$others"; else echo "SEED $id: MISSED by every check"; fi
+  fi
   cd /tmp/sv && git checkout -- .
 done
 fi
